@@ -92,6 +92,19 @@ theorem C07_episodes (relift lifted inp : Bool) (X Y : FlatMat α) (l : Nat)
     rw [hlist]
     exact episodeOf_combine_family l _ (labels X) (asc_labels X)
 
+/-- **without re-lifting, the lifted trajectory satisfies `θ[k+1] = A θ[k] + B υ[k]` exactly**: in the log the
+no-relift loop returns, every lifted state after the first is the Koopman matrix applied to the previous lifted
+state and lifted input -/
+theorem C07_norelift_step (X0 U : List (List α)) (i : Nat)
+    (hi : i + 1 < (trajNoReliftAll (rowFn ops ok) p X0 U).2.1.length) :
+    (trajNoReliftAll (rowFn ops ok) p X0 U).2.1.getD (i+1) []
+      = matVec p.K ((trajNoReliftAll (rowFn ops ok) p X0 U).2.1.getD i []
+          ++ (trajNoReliftAll (rowFn ops ok) p X0 U).2.2.getD i []) := by
+  unfold trajNoReliftAll at hi ⊢
+  simp only [] at hi ⊢
+  exact trajNoRelift_rec (rowFn ops ok) p U _ 1 _ X0 _ []
+    (by intro j hj; simp at hj) (by simp) (by intro _; simp) i hi
+
 /-- `predict`, per label: transform, multiply every lifted row by the Koopman matrix, pad zero lifted
 inputs, inverse-transform, keep the state — the definition the recursion above refers to -/
 theorem C07_predict_def (X : Ep α) :
